@@ -1,6 +1,7 @@
 package props
 
 import (
+	"os"
 	"fmt"
 	"go/ast"
 	"go/parser"
@@ -110,6 +111,7 @@ func pruneToCompile(r *core.Run, dir string, pkgs []*gen.Package) []*gen.Package
 		}
 		d := filepath.Join(dir, fmt.Sprintf("prune%d", round))
 		if _, err := gorun.Write(d, gp, []string{"case"}); err != nil {
+			fmt.Println("generated batch cannot be written (generator defect):", err)
 			return nil
 		}
 		res := core.Exec(d, core.GoEnv(), 5*time.Minute, "", "go", "build", "-gcflags=-e", "./cases/...")
@@ -117,6 +119,9 @@ func pruneToCompile(r *core.Run, dir string, pkgs []*gen.Package) []*gen.Package
 			return pkgs
 		}
 		out := res.Stdout + res.Stderr
+		if os.Getenv("VERIF_DEBUG_PRUNE") != "" {
+			fmt.Println("prune round", round, ":", firstLines(out, 60))
+		}
 		bad := map[string]map[string]bool{}
 		for _, m := range goErrRe.FindAllStringSubmatch(out, -1) {
 			pkg, line := m[1], m[2]
@@ -175,10 +180,21 @@ func runC02(r *core.Run) (bool, string) {
 	if !calibrate(r, goose) {
 		return false, "interpreter calibration failed: no verdicts issued"
 	}
+	if os.Getenv("VERIF_DEV_ONLY") == "lookalike" {
+		// development aid: only the look-alike package layer (never set by a registered command)
+		c02Lookalike(r, goose)
+		return true, ""
+	}
 	var pkgs []*gen.Package
 	for _, a := range gen.OutsideAtoms {
 		pkgs = append(pkgs, gen.OutsidePackage(a))
 	}
+	frng := core.NewRng(r.Seed, "c02-families")
+	fam := gen.FamilyAtoms("C02", r.Quick(), frng.Intn)
+	for _, a := range fam {
+		pkgs = append(pkgs, gen.OutsidePackage(a))
+	}
+	r.Set("family_atoms", len(fam))
 	// random surroundings: the statements before and after each atom are drawn from the seed
 	vrng := core.NewRng(r.Seed, "c02-variants")
 	for v := 0; v < r.Pick(1, 12); v++ {
@@ -210,6 +226,7 @@ func runC02(r *core.Run) (bool, string) {
 	for _, m := range maskedAtoms() {
 		fmt.Println("C02 note: rejected for a reason unrelated to the atom —", m)
 	}
+	c02Lookalike(r, goose)
 	replayWitnesses(r, goose, "C02", tvOptions{PerPackage: true}, c02Failing)
 	r.Set("programs", len(res))
 	r.Set("disagreements_checked", r.GetCount("cases_compared"))
